@@ -7,6 +7,11 @@ spec -> impl : TLC checks the WOFF2 rules of specs/Woff2.tla on themselves (Deco
                sets x encoder choices with the reconstruction the specification prescribes. The harness
                concretises every case with its own WOFF2 encoder (checked byte-for-byte against the
                specification's encoder) and compares what allsorts decodes by JSON equality.
+               Size boundaries of the decoder are generated as families of their own: every glyph count
+               1..130 and glyph counts around the 32-glyph bboxBitmap word with explicit bounding boxes in
+               the first / last word / nowhere, contour sizes / instruction lengths / collection counts at the
+               255UInt16 code boundaries, glyphs of up to 300 contours, a rebuilt glyf of 131068 / 131070 /
+               131072 bytes (loca short -> long), table lengths at the UIntBase128 byte boundaries.
 impl -> spec : repository fonts re-encoded by the harness encoder with seeded encoder choices (single fonts
                and collections with shared tables), the repository's own .woff2 files and random varint
                byte strings are decoded by allsorts; the recorded events are judged by Trace_Woff2.
@@ -38,6 +43,26 @@ ASSUMPTIONS = [
     "for the repository .woff2 files the transformed tables are taken from allsorts' own brotli output "
     "(Woff2Font::table_data_block)",
 ]
+
+U16_BOUNDS = [252, 253, 505, 506, 508, 509, 761, 762]
+# boundary counters (measured by the harness on the bytes it encoded) that must be non-zero in every run
+BOUNDARIES_NEEDED = (
+    ["bitmap.n=%s%s" % (c, k) for c in ("32k", "32k+1", "32k-1")
+     for k in ("", ".no_explicit_bbox", ".explicit_in_first_word", ".explicit_in_last_word", ".explicit_composite",
+               ".explicit_simple_not_tight")]
+    + ["bitmap.n=32k.explicit_at_word_edge", "bitmap.n=32k+1.explicit_at_word_edge"]
+    + ["u16.contour_points=%d" % b for b in U16_BOUNDS]
+    + ["u16.simple_instructions=%d" % b for b in U16_BOUNDS]
+    + ["u16.composite_instructions=%d" % b for b in U16_BOUNDS]
+    + ["u16.collection_font_tables=%d" % b for b in U16_BOUNDS]
+    + ["u16.collection_fonts=%d" % b for b in (252, 253, 506)]
+    + ["u16.instructions>65000"]
+    + ["contours=%d" % b for b in (127, 128, 255, 256)] + ["contours>256"]
+    + ["loca.plain_glyf=131070", "loca.plain_glyf>131070", "loca.plain_glyf>131070.source_short",
+       "loca.plain_glyf_over_131000.source_short", "loca.plain_glyf_over_131000.source_long"]
+    + ["dir.table_length=%d" % b for b in (13, 127, 128, 16383, 16384)]
+    + ["hmtx.n>=31.nhm=n", "hmtx.n>=31.nhm=1", "hmtx.n>=31.nhm=n-1", "hmtx.n>=31.nhm=32"]
+)
 
 FAMILY = [(10, "y8"), (20, "x8"), (84, "4x4"), (120, "8x8"), (124, "12x12"), (128, "16x16")]
 
@@ -168,7 +193,7 @@ def _run_mc(ctx, binp):
                 kind = m.group(1) if m else "?"
                 if kind not in samples and len(payload) < 6000:
                     samples[kind] = payload
-        mc = vlib.run_tlc(ctx, "MC_Woff2", cfg, "mc", workers=8, timeout=600 if ctx.quick else 1500, sink=sink)
+        mc = vlib.run_tlc(ctx, "MC_Woff2", cfg, "mc", workers=4, timeout=600 if ctx.quick else 1500, sink=sink)
     ctx.note("MC_Woff2 (%s): %d states generated, %d distinct, %d cases, lemmas hold (%.1fs)" %
              (cfg, mc.generated, mc.distinct, n_cases[0], mc.wall))
     if n_cases[0] == 0:
@@ -196,8 +221,22 @@ def run(ctx):
     missing = [k for k in needed if not rep["choices"].get(k)]
     kinds_needed = ["empty", "simple", "simple+instr", "simple+instr+bbox", "composite", "composite+instr"]
     missing += [k for k in kinds_needed if not rep["glyph_kinds"].get(k)]
+    # size-boundary families: every edge must have been sat on, every glyph count 1..130 decoded, the length
+    # rule of the bboxBitmap checked by TLC for n = 0 too
+    bnd = rep.get("boundaries", {})
+    missing += [k for k in BOUNDARIES_NEEDED if not bnd.get(k)]
+    missing += ["glyph count %d" % n for n in range(1, 131) if n not in rep.get("glyph_counts_transformed", [])]
+    if not rep.get("lemma_cases"):
+        missing.append("bitmap lemma for n = 0")
     if missing:
         raise vlib.ToolError("vacuous generator: no case with %s" % missing)
+    # the loca counters above are predicted from the input; when the loca family decodes without any mismatch the
+    # OBSERVED rebuilt glyf must have landed on both sides of the limit too (else the prediction has drifted)
+    loca_mism = [m for m in vlib.read_ndjson(mism_path) if m["kind"] == "font" and m["id"] and m["id"][0] == "loca"]
+    if not loca_mism and not (bnd.get("loca.source_short.rebuilt_long") and bnd.get("loca.rebuilt_glyf=131070") and bnd.get("loca.rebuilt_glyf>131070")):
+        raise vlib.ToolError("loca boundary family decodes cleanly but the rebuilt glyf did not reach 131070 / cross it: %s" %
+                             {k: v for k, v in bnd.items() if k.startswith("loca.")})
+    ctx.note("boundaries: %s" % json.dumps({k: bnd[k] for k in sorted(bnd) if k.startswith(("bitmap.n=32k", "loca."))}))
     violations = []
     gen_mism = vlib.read_ndjson(mism_path)
     for m in gen_mism:
@@ -205,15 +244,24 @@ def run(ctx):
 
     # binding self-check 1: corrupted expectations must be reported by replay, a corrupted stream by the
     # encoder cross-check
-    planted = None
+    # (the carrier is a case that does not mismatch on this tree when there is one within the first candidates;
+    # a carrier that already mismatches is still usable unless it does not decode at all)
+    planted, first_cand, seen_cand = None, None, 0
+    mism_ids = {json.dumps(m["id"]) for m in gen_mism}
     with open(cases_path) as f:
         for ln in f:
             if '"kind":"font"' in ln[:400]:
                 c = json.loads(ln)
                 g = c["fonts"][0]["glyphs"]
                 if c["ch"]["glyf"] == 0 and len(g) >= 2 and g[1]["kind"] == "simple":
-                    planted = c
-                    break
+                    first_cand = first_cand or c
+                    seen_cand += 1
+                    if json.dumps(c["id"]) not in mism_ids:
+                        planted = c
+                        break
+                    if seen_cand >= 400:
+                        break
+    planted = planted or first_cand
     if planted is None:
         raise vlib.ToolError("no font case to corrupt for the binding self-check")
     bad_pts = json.loads(json.dumps(planted))
@@ -225,8 +273,31 @@ def run(ctx):
     bad_stream = json.loads(json.dumps(planted))
     bad_stream["xglyf"][0][-1] ^= 1
     bad_vec = {"kind": "u255", "id": ["selftest"], "vec": [{"b": [254, 0], "exp": {"ok": True, "v": 505, "used": 2}}]}
+    # ... and of the boundary family: a font of 32 k glyphs whose LAST glyph carries an explicit bounding box,
+    # expectation corrupted in that box (an impossible value)
+    # (a case that already mismatches on this tree cannot carry the plant: prefer a clean 32 k case, fall back
+    # to a clean neighbour 32 k +- 1; when the whole family fails the plant is skipped - the failures are reported)
+    bad_box, fallback = None, None
+    with open(cases_path) as f:
+        for ln in f:
+            if '"kind":"font"' in ln[:400] and '"ng"' in ln[:400]:
+                c = json.loads(ln)
+                g = c["fonts"][0]["glyphs"]
+                if g[-1]["kind"] in ("composite", "simple") and c["ch"]["coll"] == "single" and json.dumps(c["id"]) not in mism_ids:
+                    if len(g) % 32 == 0:
+                        bad_box = c
+                        break
+                    fallback = fallback or c
+    bad_box = bad_box or fallback
+    if bad_box is None:
+        if not any(m["kind"] == "font" and m["id"] and m["id"][0] == "ng" for m in gen_mism):
+            raise vlib.ToolError("no glyph-count boundary case to corrupt for the binding self-check")
+        ctx.note("binding self-check: every glyph-count boundary case with an explicit last bbox already mismatches; plant skipped")
+    else:
+        bad_box["exp_fonts"] = json.loads(json.dumps(bad_box["fonts"]))
+        bad_box["exp_fonts"][0]["glyphs"][-1]["bbox"][3] = 32767
     sp, sm = ctx.path("selftest_case.ndjson"), ctx.path("selftest_mism.ndjson")
-    vlib.write_ndjson(sp, [planted, bad_pts, bad_lsb, bad_stream, bad_vec])
+    vlib.write_ndjson(sp, [planted, bad_pts, bad_lsb, bad_stream, bad_vec] + ([bad_box] if bad_box else []))
     srep = vlib.run_harness(binp, ["replay", sp, sm])
     got_keys = sorted(_gen_key(m) for m in vlib.read_ndjson(sm))
     base_keys = sorted(_gen_key(m) for m in gen_mism if m["id"] == planted["id"])
@@ -234,8 +305,14 @@ def run(ctx):
     for k in base_keys * 4:
         if k in extra:
             extra.remove(k)
-    if not any("Glyph:simple:points" in k for k in extra) or not any("Hmtx:lsb" in k for k in extra) \
-            or "U255:value" not in extra or len(srep["encoder_disagreements"]) != 1:
+    undecodable = any(k.startswith("Decode:") for k in base_keys)
+    if undecodable:
+        # the carrier does not decode on this tree (reported as a violation below): corrupted expectations cannot
+        # be told apart from it; the vector and encoder cross-check plants still have to be seen
+        ctx.note("binding self-check: the carrier font case does not decode on this tree (%s); font-level plants skipped" % base_keys)
+    if (not undecodable and (not any("Glyph:simple:points" in k for k in extra) or not any("Hmtx:lsb" in k for k in extra))) \
+            or "U255:value" not in extra or len(srep["encoder_disagreements"]) != 1 \
+            or (bad_box and not any(re.search(r"Glyph:(simple|composite):bbox", k) for k in extra)):
         raise vlib.ToolError("binding self-check failed: corrupted cases not all reported (keys %s, encoder cross-check %d)" %
                              (extra, len(srep["encoder_disagreements"])))
 
@@ -250,6 +327,18 @@ def run(ctx):
                  "fonts_elided_tail_lsb_with_nhm_lt_n", "fixture_transformed_glyf_tables"):
         if not rec["tally"].get(need):
             raise vlib.ToolError("vacuous trace: %s = 0" % need)
+    # size boundaries in the trace: fonts of more than 65000 glyphs, and - whenever the repository has a glyf font
+    # whose glyph count is a multiple of 32 - such a font decoded through the glyf transform
+    t = rec["tally"]
+    if not t.get("synthetic_big_fonts") or not t.get("fonts_glyf_transformed_more_than_65000_glyphs"):
+        raise vlib.ToolError("vacuous trace: no font of more than 65000 glyphs recorded")
+    if t.get("repository_glyf_fonts_with_glyph_count_multiple_of_32") and t.get("selected_glyph_count_multiple_of_32") \
+            and not t.get("fonts_glyf_transformed_glyph_count_mod32_0_with_explicit_bbox"):
+        raise vlib.ToolError("vacuous trace: no font with a glyph count that is a multiple of 32 went through the glyf transform")
+    ctx.note("record: repository glyf fonts with numGlyphs %% 32 = 0: %d (selected %d), = 31: %d (selected %d), = 1: %d (selected %d)" % (
+        t.get("repository_glyf_fonts_with_glyph_count_multiple_of_32", 0), t.get("selected_glyph_count_multiple_of_32", 0),
+        t.get("repository_glyf_fonts_with_glyph_count_multiple_of_32_minus_1", 0), t.get("selected_glyph_count_multiple_of_32_minus_1", 0),
+        t.get("repository_glyf_fonts_with_glyph_count_multiple_of_32_plus_1", 0), t.get("selected_glyph_count_multiple_of_32_plus_1", 0)))
     # binding self-check 2: corrupted copies of recorded events must be rejected by the judge
     plant = []
     want_kinds = {"Glyph": None, "Hmtx": None, "U255": None, "Dir": None}
@@ -323,6 +412,10 @@ def run(ctx):
         "u255_first_bytes_exercised": rep["u255_first_bytes_exercised"],
         "encoder_choices_exercised": rep["choices"],
         "glyph_kinds_generated": rep["glyph_kinds"],
+        "size_boundaries_generated": bnd,
+        "glyph_counts_decoded_through_glyf_transform": rep.get("glyph_counts_transformed", []),
+        "bitmap_length_lemma": "BitmapLenRule(n) checked by TLC for n = 0..130 (encoder length = decoder length = "
+                               "4*floor((n+31)/32), minimal, bits read back, last-glyph bbox split)",
         "recorded_events_judged": total,
         "recorded_events_by_kind": rec["by_kind"],
         "recorded_tally": rec["tally"],
